@@ -1,6 +1,8 @@
 (* C06/Properties.v — property theorems only: statement, `exact`, Print Assumptions. *)
-From Coq Require Import QArith List Bool.
-From C06 Require Import Generated Model Proofs.
+From Coq Require Import QArith List Bool Lra.
+From Coq Require Import Reals Qreals.
+From Coquelicot Require Import Coquelicot.
+From C06 Require Import Generated Model Proofs Analysis.
 Import ListNotations.
 Open Scope Q_scope.
 
@@ -78,6 +80,40 @@ Theorem C06_numeric_grad_accuracy : forall e x eps j,
   evalQ (D e j) x + eps * eps * ((r3 (taylor e x j eps) + r3 (taylor e x j (- eps))) / 2).
 Proof. exact numeric_grad_accuracy. Qed.
 Print Assumptions C06_numeric_grad_accuracy.
+
+(* ---- analysis level (coq/C06/Analysis.v; depends on the standard-library axioms of the classical reals, named below) ----
+   aexpr = dexpr + exp, ln, sin, cos, sqrt, abs, tanh + the general power a^b (a > 0).  Wherever the expression is defined,
+   its symbolic derivative DA evaluates to the partial derivative in the sense of real analysis (Coquelicot is_derive). *)
+Theorem C06_real_derivative : forall (e : aexpr) (p : nat -> R) (i : nat),
+  definedR e p ->
+  is_derive (fun t => evalR e (updR p i t)) (p i) (evalR (DA e i) p).
+Proof. exact is_derive_DA. Qed.
+Print Assumptions C06_real_derivative.
+
+(* exact rational evaluation is real evaluation at rational points *)
+Theorem C06_evalQ_is_real_evaluation : forall e p, defined e p -> Q2R (evalQ e p) = evalR (embed e) (pointR p).
+Proof. exact evalQ_evalR. Qed.
+Print Assumptions C06_evalQ_is_real_evaluation.
+
+(* hence the extracted oracle of the correspondence, evalQ (D e i) p, is the real partial derivative *)
+Theorem C06_oracle_is_real_derivative : forall (e : dexpr) (p : point) (i : nat),
+  defined e p ->
+  is_derive (fun t => evalR (embed e) (updR (pointR p) i t)) (pointR p i) (Q2R (evalQ (D e i) p)).
+Proof. exact D_is_real_derivative. Qed.
+Print Assumptions C06_oracle_is_real_derivative.
+
+Example C06_real_example :
+  (* d/dx0 of exp(x0 * x1) / sqrt(x1) + tanh(x0)^2 * |x1 - 3| ^ x0 is defined at (1/2, 2) *)
+  let e := AAdd (ADiv (AFun FExp (AMul (AVar 0) (AVar 1))) (AFun FSqrt (AVar 1)))
+                (AMul (APowN (AFun FTanh (AVar 0)) 2) (APow (AFun FAbs (ASub (AVar 1) (AConst 3))) (AVar 0))) in
+  definedR e (fun i => match i with O => / 2 | _ => 2 end)%R.
+Proof.
+  cbv zeta. cbn [definedR evalR ufunR]. unfold Q2R; simpl.
+  assert (H : (2 - 3 * / 1 <> 0)%R) by lra.
+  repeat split; try lra; try exact H.
+  - apply Rgt_not_eq. apply sqrt_lt_R0. lra.
+  - apply Rabs_pos_lt. exact H.
+Qed.
 
 (* the scheme and step of the source are the ones of the model (facts read by the translator) *)
 Theorem C06_source_scheme :
